@@ -73,7 +73,7 @@ fuzz_target!(|data: &[u8]| {
     let Ok(event) = event(&mut u) else { return };
     let rest = u.take_rest();
     let raw: String = String::from_utf8_lossy(rest).chars().take(64).collect();
-    let c = PatternCase { segs: vec![], raw: Some(raw), event };
+    let c = PatternCase { segs: vec![], raw: Some(raw), event, fit: None };
     if let Err(f) = logx::c20_pattern::execute(&c) {
       if f.property == "C20" {
         report("pattern", serde_json::to_value(&c).unwrap(), f);
